@@ -1116,10 +1116,10 @@ def check_c10(run):
     if not q:
         cs.append(("per-3d-h2", fmm_constants(3, 2, [0, 3, 5, 7], periodic=True, maxparts=2, stops=(1,), bss=(1, 20), hists=("ptop",), aboves=(-1, 0))))
         cs.append(("per-tsm-2d-h3", fmm_constants(2, 3, [0, 6, 9, 15], periodic=True, mode="tsm", maxparts=2, stops=(1,), bss=(1, 2, 20), hists=("ptop",), aboves=(0, 1))))
-    run_fmm_configs(run, "C10", cs, cap=1024)
+    run_fmm_configs(run, "C10", cs, cap=1024 if q else 2048)
     # code -> spec: the in-box part (wrapped lists, stop level 1) recorded on large random periodic trees, sequential / OpenMP / target-source, validated by TLC
     trace_campaign(run, "C10", run.tier, modes=(0, 1), periodic=True, events=4,
-                   classes=[(1, 6, 12, 30), (2, 4, 8, 25), (3, 3, 4, 20)] if q else [(1, 7, 40, 50), (2, 5, 20, 40), (3, 3, 20, 30), (3, 4, 6, 30), (4, 2, 10, 12)])
+                   classes=[(1, 6, 12, 30), (2, 4, 8, 25), (3, 3, 4, 20)] if q else [(1, 7, 40, 50), (2, 5, 20, 40), (3, 3, 20, 15), (3, 4, 6, 15), (4, 2, 10, 5)])      # (bags hold 3^Dim images per source particle, twice after a second pass)
     # the periodic shifter (src/utils/tbfperiodicshifter.hpp): Grid.tla's ImageOf for every neighbour of every leaf of periodic grids
     shcells = [(1, 5, True, "morton"), (2, 4, True, "morton"), (3, 3, True, "morton"), (4, 2, True, "morton")] if q else \
               [(1, 8, True, "morton"), (2, 5, True, "morton"), (3, 4, True, "morton"), (4, 3, True, "morton"), (3, 2, True, "morton"), (1, 2, True, "morton")]
